@@ -223,6 +223,15 @@ Section SignProofs.
     subst bs. now apply in_map.
   Qed.
 
+  (** Every blob other than the issued one (any flip, truncation, extension,
+      splice): rejected, unless it carries a forged MAC. *)
+  Theorem mutant_rejected k d bs : no_forgery k [d] bs -> bs <> sign k d -> check k bs = None.
+  Proof.
+    intros F N. destruct (check k bs) as [d'|] eqn:E; [|reflexivity]. exfalso.
+    destruct (only_issued_verify k [d] bs d' F E) as [[<-|[]] _].
+    apply check_sound in E. contradiction.
+  Qed.
+
   (** ** Hex tokens *)
   Hypothesis mac_bytes : forall k d, is_bytes (mac k d).
 
@@ -261,6 +270,15 @@ Section SignProofs.
     { apply hex_decode_encode. now apply sign_is_bytes. }
     assert (In d issued) as I by (apply (F _ D); reflexivity).
     split; [exact I|]. now apply in_map.
+  Qed.
+
+  Theorem hex_mutant_rejected k d s :
+    (forall bs, hex_decode s = Some bs -> no_forgery k [d] bs) ->
+    s <> sign_hex k d -> check_hex k s = None.
+  Proof.
+    intros F N. destruct (check_hex k s) as [d'|] eqn:E; [|reflexivity]. exfalso.
+    destruct (hex_only_issued_verify k [d] s d' F E) as [[<-|[]] _].
+    apply check_hex_iff in E. destruct E as [_ E]. contradiction.
   Qed.
 
   (** Changing any one character of an issued hex token (so: flipping any
